@@ -52,8 +52,12 @@ CLAIMED = {
              'earlier stages and the previous lap, which is the whole property exactly when a stage with a mutable handler holds '
              'no other handler). Tie: translator for the ordering table + every real trace replayed on the model (MISMATCH, '
              'orderings of every facade call compared) and judged by the slot-exclusion and vector-clock oracles on the '
-             'implementation\'s own events (SPECFAIL). Partial: the multi-producer sequencer is not modelled (judged by the '
-             'oracles per run only); a happens-before model over an interleaving semantics stands in for full C11 (no stale '
+             'implementation\'s own events (SPECFAIL). Multi-producer sequencer (ring sizes 2^k, any number of writer threads, every '
+             'schedule): c05_multi_no_overwrite / c05_multi_no_lap / c05_multi_writers_distinct_slots (capacity side) and '
+             'c05_multi_race_free_reachable (vector clocks with per-writer write counts and one clock per bitmap word, orderings '
+             'from Gen.Orderings: claimant write -> fetch_or on the word -> publisher scan/fetch_and -> CAS on the cursor -> handler '
+             'load), with load-bearing witnesses c05_multi_relaxed_cas_races / c05_multi_relaxed_fetch_or_races. Partial: a '
+             'happens-before model over an interleaving semantics stands in for full C11 (no stale '
              'reads of the monotone counters, no compiler reordering of the plain slot accesses beyond what happens-before '
              'forbids); the mutex/condvar/is_done/spawn edges are deliberately not used in the Lean model (fewer edges, sound '
              'for race freedom) while the trace oracle does use lock/unlock edges.',
